@@ -61,9 +61,22 @@ func main() {
 	}
 	kterms := []sq.Term{{1}, {1, 2}, {2}, {2, 1}, {3}}
 	treeTerms = kterms
-	for ci := 0; ci < ncorp; ci++ {
+	nbig := 1
+	if *tier == "thorough" {
+		nbig = 4
+	}
+	for ci := 0; ci < ncorp+nbig; ci++ {
+		// the last corpora are LARGE: one segment of 1 500+ documents, so that document values span several
+		// of the segment format's 1 024-document chunks (buffers are re-used from chunk to chunk)
+		big := ci >= ncorp
 		nd := 1 + r.Intn(14)
 		c := sq.RandCorpus(r, nd, 1+r.Intn(3), false)
+		if big {
+			nd = 1500 + r.Intn(300)
+			for c = sq.RandCorpus(r, nd, 1, false); len(c.Segs[0].Docs) < 1400; {
+				c = sq.RandCorpus(r, nd, 1, false)
+			}
+		}
 		docs := map[int]mdoc{}
 		for si := range c.Segs {
 			for di := range c.Segs[si].Docs {
@@ -115,6 +128,10 @@ func main() {
 			panic("harness: " + err.Error())
 		}
 		queries := []*sq.Q{{T: "all"}, {T: "term", F: "f1", V: sq.Vocab[r.Intn(3)]}, sq.RandQuery(r, 1, 3, false)}
+		nset := nset
+		if big {
+			queries, nset = queries[:2], 1
+		}
 		for _, q := range queries {
 			q.Fix()
 			mk := func() bluge.Query { rq, _ := q.Real(); return rq }
